@@ -15,7 +15,7 @@ RULES = ("C20.", "C05.message-multiset", "C02.uid-assignment")
 BODIES = {
     1: "plain cid=m1; line\r\n.leading dot\r\n..two dots\r\n.\r\nafter lone dot\r\n",
     2: "cid=m2; no final newline",
-    3: "cid=m3;\r\n",
+    3: "cid=m3;\r\n\r\n\r\n",  # ends in blank lines: they are octets of the message too
 }
 
 
